@@ -30,6 +30,9 @@ PROJ = {
     "C14": (["NOW", "TRESET", "TEXTEND"], [11, 12, 17]),
     "C15": (["GETVER", "NONCE", "NOW", "BCAST"], [2, 15]),
     "C16": (["SUB", "GETVER", "TRESET", "THEIGHT", "TVIEW", "BCAST"], [11]),
+    # properties with their own deciders that also read the node histories (monitors; a narrow part of the tie)
+    "C06": ([], []),
+    "C17": ([], []),
 }
 # histories on which a property's correspondence is evaluated (job name prefixes); None = all
 SCOPE = {"C08": ("sync-c08", "sync-c16"), "C09": ("sync-c09",), "C16": ("sync-c16", "gen", "scen"), "C14": ("shift", "gen", "scen", "sync")}
@@ -53,6 +56,8 @@ def relevant(pid, dis, job):
     if k == "DIFF":
         if pid == "C05" and dis.get("op", "")[:2] in ("S ", "R ") and any(s in (5, 6, 7, 8, 9, 10) for s in dis.get("sections", [])):
             return True  # the payload tables and the last-seen table right after a (re)initialisation
+        if pid == "C17" and dis.get("op", "")[:2] == "R " and 14 in dis.get("sections", []):
+            return True  # the simulation calls Reset after every block: what Reset does to the kept payloads
         return any(s in secs for s in dis.get("sections", []))
     return True  # panics and model errors concern every property's tie
 
